@@ -835,7 +835,7 @@ fn decorated_strategy() -> impl Strategy<Value = Case> {
 }
 
 pub fn run(ctx: &mut Ctx) {
-  ctx.level = "bounded-exhaustive";
+  ctx.level = "exploration";
   ctx.rule = "complete decision table: protected and unprotected header each in {absent} ∪ {alg absent/EdDSA} × {b64 absent/true/false} × \
     {crit absent, [], [b64], [b64,b64], [alg], [exp], [x-unknown] without/with such a member, [b64,exp]}; shared name {none, kid, x-shared} \
     when both headers exist (8857 rows) × 15 entry points (3 encoder constructors, add_recipient after 3 first recipients, 3 decoders + verify \
